@@ -48,21 +48,32 @@ struct Case {
     tag: String,
 }
 
+fn sub(owner: &Name) -> Name {
+    let mut n = vec![1, b'c'];
+    n.extend_from_slice(owner);
+    n
+}
+
 fn rec_i(i: usize, owner: &Name) -> Rec {
     let ttl = 100 + i as u32;
     match i % 5 {
         0 => a_rec(owner, ttl, [10, 0, 0, i as u8]),
-        1 => name_rec(owner, T_CNAME, ttl, &nm("c.b.a")),
-        2 => mx_rec(&nm("b.a"), ttl, 5, owner),
-        3 => aaaa_rec(&nm("c.b.a"), ttl, [i as u8; 16]),
-        _ => a_rec(&nm("b.a"), ttl, [10, 0, 1, i as u8]),
+        1 => name_rec(owner, T_CNAME, ttl, &sub(owner)),
+        2 => mx_rec(owner, ttl, 5, owner),
+        3 => aaaa_rec(&sub(owner), ttl, [i as u8; 16]),
+        _ => a_rec(owner, ttl, [10, 0, 1, i as u8]),
     }
 }
 
 fn cases(max_n: usize) -> Vec<Case> {
     let mut v = vec![];
-    let ba = nm("b.a");
+    // short names, and long ones (decompression then moves every later record by tens of bytes,
+    // so offsets taken before and after it cannot be confused without being noticed)
+    for (ba, long) in [(nm("b.a"), false), (nm("host.subdomain.example.com"), true)] {
     for strat in [Strategy::Max, Strategy::Plain] {
+        if long && strat == Strategy::Plain {
+            continue;
+        }
         for n in 0..=max_n {
             for sec in [Sec::Answer, Sec::Authority, Sec::Additional] {
                 let opt_positions: Vec<Option<usize>> = if sec == Sec::Additional {
@@ -101,16 +112,17 @@ fn cases(max_n: usize) -> Vec<Case> {
                     };
                     let incls: Vec<bool> = if sec == Sec::Additional { vec![false, true] } else { vec![false] };
                     for incl in incls {
-                        v.push(Case { bytes: encode(&m, strat), sec, incl_opt: incl, tag: format!("sec={}{} opt={} n={} ptr={}", sec_name(sec), if incl { "+opt" } else { "" }, optname, n, (strat == Strategy::Max) as u8) });
+                        v.push(Case { bytes: encode(&m, strat), sec, incl_opt: incl, tag: format!("sec={}{} opt={} n={} ptr={} long={}", sec_name(sec), if incl { "+opt" } else { "" }, optname, n, (strat == Strategy::Max) as u8, long as u8) });
                     }
                 }
             }
         }
         // the question
-        let mut m = base_msg(&nm("c.b.a"), T_A, true);
-        m.an.push(name_rec(&nm("c.b.a"), T_CNAME, 1, &ba));
+        let mut m = base_msg(&sub(&ba), T_A, true);
+        m.an.push(name_rec(&sub(&ba), T_CNAME, 1, &ba));
         m.ar.push(opt_variants()[1].clone());
         v.push(Case { bytes: encode(&m, strat), sec: Sec::Question, incl_opt: false, tag: format!("sec=question opt=last n=1 ptr={}", (strat == Strategy::Max) as u8) });
+    }
     }
     v
 }
